@@ -220,6 +220,9 @@ class Component(CaselessDict):
         else:
             klass = types_factory.for_property(name)
             obj = klass(value)
+            if isinstance(value, datetime) and types_factory.types_map.get(name) == 'duration':
+                # e.g. TRIGGER: DURATION is the default value type
+                obj.params['VALUE'] = 'DATE-TIME'
         if parameters:
             if not hasattr(obj, "params"):
                 obj.params = Parameters()
@@ -633,6 +636,9 @@ def create_single_property(
         if not isinstance(value, value_type):
             raise TypeError(f"Use {' or '.join(t.__name__ for t in value_type)}, not {type(value).__name__}.")
         self[prop] = vProp(value)
+        if isinstance(value, datetime) and types_factory.types_map.get(prop) == 'duration':
+            # e.g. TRIGGER: DURATION is the default value type
+            self[prop].params['VALUE'] = 'DATE-TIME'
         if prop in self.exclusive:
             for other_prop in self.exclusive:
                 if other_prop != prop:
